@@ -45,7 +45,7 @@ class C02(Check):
                        "feat:repeated-key", "feat:qudit-measure", "feat:classical-control", "feat:sympy-condition",
                        "feat:bitmask-condition", "feat:indexed-condition", "feat:pauli-measure", "feat:reset", "feat:subcircuit", "feat:subcircuit-key-map", "feat:subcircuit-rep-ids",
                        "sim:sv", "sim:dm", "sim:clifford", "sim:stab-sampler", "entry:run", "entry:simulate",
-                       "entry:steps", "entry:sample", "entry:run_sweep", "entry:sweep-from-state", "gen:deep-clifford", "init:vector", "init:int", "order:permuted", "order:spectator"]
+                       "entry:steps", "entry:sample", "entry:run_sweep", "entry:sweep-from-state", "entry:direct-functions", "direct:sample_from_amplitudes", "direct:measure_density_matrix", "gen:deep-clifford", "init:vector", "init:int", "order:permuted", "order:spectator"]
 
     def setup(self) -> None:
         from simkit import repoenv
@@ -61,6 +61,8 @@ class C02(Check):
         ctx.workload = "born-rule"
         if tape.chance(1, 12, "sweep-from-state?"):
             return self._sweep_from_state(tape, ctx)
+        if tape.chance(1, 12, "direct-functions?"):
+            return self._direct_functions(tape, ctx)
         clifford = tape.chance(1, 5, "clifford-circuit?")
         deep_clifford = clifford and tape.chance(1, 2, "deep-clifford?")
         g = qgen.Gen(tape, clifford_only=clifford, allow_channels=False, allow_qudits=not clifford,
@@ -180,6 +182,168 @@ class C02(Check):
         ctx.sample = {"circuit": diagram if len(diagram) <= 24 and max(map(len, diagram), default=0) < 200
                       else [repr(op)[:120] for op in circuit.all_operations()][:20], "simulator": cfg.describe(), "entry": entry,
                       "repetitions": reps, "leaves_explored": n_leaves, "features": sorted(g.features)}
+
+    # -- entry points: the measuring / sampling functions themselves, and sample_from_amplitudes -------------
+    def _direct_functions(self, tape, ctx: Ctx) -> None:
+        """cirq.sample_state_vector / measure_state_vector / sample_density_matrix /
+        measure_density_matrix on a tape-drawn state, and Simulator.sample_from_amplitudes: outcome
+        distribution = Born marginal, collapse = projection, and "sampling a state never changes it"."""
+        cirq = self.cirq
+        sp = __import__("engines.scripted_prng", fromlist=["x"])
+        ctx.probe("entry:direct-functions")
+        which = tape.draw(5, "direct-fn")
+        n = 1 + tape.draw(3, "n-qudits")
+        dims = [3 if tape.chance(1, 6, "qutrit?") else 2 for _ in range(n)]
+        D = int(np.prod(dims))
+        dtype = np.complex128 if tape.chance(1, 2, "dtype128?") else np.complex64
+        tol = 5e-5 if dtype == np.complex64 else 1e-7
+        vals = [tape.draw(9, "amp") - 4 for _ in range(2 * D)]
+        v = np.array(vals[:D], dtype=float) + 1j * np.array(vals[D:], dtype=float)
+        if np.linalg.norm(v) == 0:
+            v[0] = 1
+        v = v / np.linalg.norm(v)
+        k = 1 + tape.draw(n, "n-indices")
+        pool = list(range(n))
+        indices = [pool.pop(tape.draw(len(pool), "index")) for _ in range(k)]
+        digits = np.array(list(np.ndindex(*dims))).reshape(-1, n)
+        probs_full = np.abs(v) ** 2
+        marg = {}
+        for row, p in zip(digits, probs_full):
+            key = tuple(int(row[i]) for i in indices)
+            marg[key] = marg.get(key, 0.0) + float(p)
+        names = ["sample_state_vector", "measure_state_vector", "sample_density_matrix", "measure_density_matrix",
+                 "sample_from_amplitudes"]
+        fn = names[which]
+        ctx.probe("direct:" + fn)
+        if fn == "sample_from_amplitudes":
+            return self._sample_from_amplitudes(tape, ctx)
+        reps = 1 + tape.draw(2, "reps")
+        state = v.astype(dtype)
+        if tape.chance(1, 2, "tensor-shaped?"):
+            state = state.reshape(dims)
+        rho = np.outer(v, v.conj()).astype(dtype)
+        if fn.endswith("density_matrix") and tape.chance(1, 2, "tensor-shaped-rho?"):
+            rho = rho.reshape(dims + dims)
+        out_mode = tape.draw(3, "out-mode")      # None / separate buffer / in place
+
+        def leaf(prng):
+            if fn == "sample_state_vector":
+                before = state.copy()
+                r = cirq.sample_state_vector(state, indices, qid_shape=tuple(dims), repetitions=reps, seed=prng)
+                if not np.array_equal(before, state):
+                    raise Violation(f"{P}-SAMPLE-MUTATES", f"cirq.sample_state_vector changed its input state")
+                return tuple(tuple(int(x) for x in row) for row in r), None
+            if fn == "sample_density_matrix":
+                before = rho.copy()
+                r = cirq.sample_density_matrix(rho, indices, qid_shape=tuple(dims), repetitions=reps, seed=prng)
+                if not np.array_equal(before, rho):
+                    raise Violation(f"{P}-SAMPLE-MUTATES", f"cirq.sample_density_matrix changed its input state")
+                return tuple(tuple(int(x) for x in row) for row in r), None
+            if fn == "measure_state_vector":
+                src = state.copy()
+                out = None if out_mode == 0 else (np.empty_like(src) if out_mode == 1 else src)
+                before = src.copy()
+                bits, post = cirq.measure_state_vector(src, indices, qid_shape=tuple(dims), out=out, seed=prng)
+                if out_mode != 2 and not np.array_equal(before, src):
+                    raise Violation(f"{P}-SAMPLE-MUTATES", f"cirq.measure_state_vector(out={'None' if out_mode == 0 else 'buffer'}) "
+                                                           f"changed its input state")
+                return (tuple(int(b) for b in bits),), np.asarray(post, dtype=np.complex128).reshape(-1)
+            src = rho.copy()
+            out = None if out_mode == 0 else (np.empty_like(src) if out_mode == 1 else src)
+            before = src.copy()
+            bits, post = cirq.measure_density_matrix(src, indices, qid_shape=tuple(dims), out=out, seed=prng)
+            if out_mode != 2 and not np.array_equal(before, src):
+                raise Violation(f"{P}-SAMPLE-MUTATES", f"cirq.measure_density_matrix(out={'None' if out_mode == 0 else 'buffer'}) "
+                                                       f"changed its input state")
+            return (tuple(int(b) for b in bits),), np.asarray(post, dtype=np.complex128).reshape(D, D)
+
+        leaves = sp.explore(leaf, 400)
+        w = {}
+        for wt, (rows, post), _t in leaves:
+            w[rows] = w.get(rows, 0.0) + wt
+            if post is not None:
+                key = rows[0]
+                mask = np.array([tuple(int(r[i]) for i in indices) == key for r in digits])
+                want = np.where(mask, v, 0)
+                want = want / np.linalg.norm(want)
+                got = post if post.ndim == 1 else None
+                if got is not None:
+                    if np.max(np.abs(got - want)) > tol * 20:
+                        raise Violation(f"{P}-STATE", f"cirq.{fn}: post-measurement state for outcome {key} is not the "
+                                                      f"projection of the input (dims {dims}, indices {indices})")
+                else:
+                    wrho = np.outer(want, want.conj())
+                    if np.max(np.abs(post - wrho)) > tol * 20:
+                        raise Violation(f"{P}-STATE", f"cirq.{fn}: post-measurement density matrix for outcome {key} is "
+                                                      f"not the projection of the input (dims {dims}, indices {indices})")
+        for rows, wt in w.items():
+            expect = 1.0
+            for r in rows:
+                expect *= marg.get(r, 0.0)
+            if abs(wt - expect) > tol * 8:
+                raise Violation(f"{P}-DIST", f"cirq.{fn}(indices={indices}, dims={dims}): outcomes {rows} have probability "
+                                             f"{wt:.7f}, the Born marginal gives {expect:.7f}")
+        if abs(sum(w.values()) - 1) > tol * 8:
+            raise Violation(f"{P}-DIST", f"cirq.{fn}: offered probabilities sum to {sum(w.values())}")
+        ctx.decide("case", fn, dims, indices, np.dtype(dtype).name, reps, out_mode, len(leaves))
+        ctx.nontrivial = len(leaves) >= 2
+        ctx.steps += len(leaves)
+        ctx.state(("direct", fn, tuple(dims), len(indices), out_mode))
+        ctx.sample = {"entry": f"cirq.{fn}", "dims": dims, "indices": indices, "repetitions": reps,
+                      "out": ["None", "buffer", "in place"][out_mode], "leaves_explored": len(leaves)}
+
+    def _sample_from_amplitudes(self, tape, ctx: Ctx) -> None:
+        cirq = self.cirq
+        sp = __import__("engines.scripted_prng", fromlist=["x"])
+        qref = __import__("engines.qref", fromlist=["x"])
+        g = self.qgen.Gen(tape, allow_measure=False, allow_control=False, allow_reset=False, allow_qudits=False,
+                          allow_pauli_measure=False, max_qudits=3, max_ops=6)
+        circuit = g.circuit()
+        for q in g.qudits:
+            if q not in circuit.all_qubits():
+                circuit.append(cirq.I(q))
+        qs = sorted(circuit.all_qubits())
+        reps = 1 + tape.draw(2, "reps")
+        ref = qref.QRef(qs)
+        psi = ref.run(circuit, 0)[0].psi
+        p = np.abs(psi) ** 2
+
+        def leaf(prng):
+            sim = cirq.Simulator(seed=prng, dtype=np.complex128)
+            return sim.sample_from_amplitudes(circuit, cirq.ParamResolver({}), seed=prng, repetitions=reps, qubit_order=qs)
+
+        try:
+            leaves = sp.explore(leaf, 150)
+        except sp.TreeTooLarge:
+            ctx.probe("tree-too-large")
+            return
+        # distribution over multisets of bitstrings
+        w = {}
+        for wt, counts, _t in leaves:
+            key = tuple(sorted(counts.items()))
+            w[key] = w.get(key, 0.0) + wt
+        import itertools
+        import math as _m
+        expect = {}
+        for combo in itertools.product(range(len(p)), repeat=reps):
+            key = {}
+            for c in combo:
+                key[c] = key.get(c, 0) + 1
+            pr = 1.0
+            for c in combo:
+                pr *= float(p[c])
+            kk = tuple(sorted(key.items()))
+            expect[kk] = expect.get(kk, 0.0) + pr
+        for kk in set(w) | set(expect):
+            if abs(w.get(kk, 0.0) - expect.get(kk, 0.0)) > 1e-6 * max(4, _m.sqrt(len(leaves))):
+                raise Violation(f"{P}-DIST", f"Simulator.sample_from_amplitudes: sample multiset {dict(kk)} has probability "
+                                             f"{w.get(kk, 0.0):.7f}, the Born rule gives {expect.get(kk, 0.0):.7f}\n{circuit}")
+        ctx.decide("case", "sample_from_amplitudes", repr(circuit), reps, len(leaves))
+        ctx.nontrivial = len(leaves) >= 2
+        ctx.steps += len(leaves)
+        ctx.state(("direct", "sample_from_amplitudes", len(qs), reps))
+        ctx.sample = {"entry": "Simulator.sample_from_amplitudes", "circuit": str(circuit).splitlines()[:12],
+                      "repetitions": reps, "leaves_explored": len(leaves)}
 
     # -- entry point: simulate_sweep started from a SimulationState that already holds records -----------
     def _sweep_from_state(self, tape, ctx: Ctx) -> None:
